@@ -133,6 +133,8 @@ struct Sc {
     threads: Vec<Vec<Op>>,
     /// cells that never monitor anything and must receive nothing
     strangers: Vec<usize>,
+    /// run by the main task, one after the other, once the racing tasks are done
+    after: Vec<Op>,
 }
 
 /// structural agreement of all indexes, and of the six query functions with the forward map
@@ -259,6 +261,11 @@ fn body(sc: Sc) -> vsched::Body {
             vsched::quiesce();
             for h in hs {
                 recs.extend(h.await.expect("pg task"));
+            }
+            for op in &sc.after {
+                let call = vsched::stamp();
+                let members = run_op(op, &cells);
+                recs.push(Rec { op: op.clone(), call, ret: vsched::stamp(), members });
             }
             let mut bad = Vec::new();
             let id = |i: usize| cells[i].get_id();
@@ -440,48 +447,65 @@ fn scenarios() -> Vec<(Sc, Option<usize>, usize)> {
     let all = pg::ALL_SCOPES_NOTIFICATION;
     vec![
         (
-            Sc { name: "join-vs-exit", n_cells: 5, setup: vec![Op::Monitor("g", m), Op::MonitorScope(all, mw)], threads: vec![vec![Op::Join(DS, "g", vec![a])], vec![Op::Exit(a)]], strangers: vec![n, b] },
+            Sc { name: "join-vs-exit", n_cells: 5, setup: vec![Op::Monitor("g", m), Op::MonitorScope(all, mw)], threads: vec![vec![Op::Join(DS, "g", vec![a])], vec![Op::Exit(a)]], strangers: vec![n, b], after: vec![] },
             None,
             8,
         ),
         (
             // the exiting actor is the last member of a group that somebody else joins at the same time
-            Sc { name: "sole-member-exits-vs-other-joins", n_cells: 5, setup: vec![Op::Join(DS, "g", vec![a]), Op::Join("s", "g", vec![a]), Op::Monitor("g", m)], threads: vec![vec![Op::Exit(a)], vec![Op::Join(DS, "g", vec![b]), Op::Join("s", "g", vec![b])]], strangers: vec![n] },
+            Sc { name: "sole-member-exits-vs-other-joins", n_cells: 5, setup: vec![Op::Join(DS, "g", vec![a]), Op::Join("s", "g", vec![a]), Op::Monitor("g", m)], threads: vec![vec![Op::Exit(a)], vec![Op::Join(DS, "g", vec![b]), Op::Join("s", "g", vec![b])]], strangers: vec![n], after: vec![] },
             None,
             8,
         ),
         (
-            Sc { name: "sole-member-leaves-vs-other-joins-vs-query", n_cells: 5, setup: vec![Op::Join("s", "g", vec![a]), Op::MonitorScope("s", mw)], threads: vec![vec![Op::Leave("s", "g", vec![a])], vec![Op::Join("s", "g", vec![b])], vec![Op::Members("s", "g"), Op::Listing]], strangers: vec![n] },
+            Sc { name: "sole-member-leaves-vs-other-joins-vs-query", n_cells: 5, setup: vec![Op::Join("s", "g", vec![a]), Op::MonitorScope("s", mw)], threads: vec![vec![Op::Leave("s", "g", vec![a])], vec![Op::Join("s", "g", vec![b])], vec![Op::Members("s", "g"), Op::Listing]], strangers: vec![n], after: vec![] },
             Some(3),
             8,
         ),
         (
-            Sc { name: "join-vs-exit-vs-monitor", n_cells: 5, setup: vec![], threads: vec![vec![Op::Join(DS, "g", vec![a])], vec![Op::Exit(a)], vec![Op::Monitor("g", m)]], strangers: vec![n, b] },
+            Sc { name: "join-vs-exit-vs-monitor", n_cells: 5, setup: vec![], threads: vec![vec![Op::Join(DS, "g", vec![a])], vec![Op::Exit(a)], vec![Op::Monitor("g", m)]], strangers: vec![n, b], after: vec![] },
             Some(3),
             8,
         ),
         (
-            Sc { name: "scoped-join-dups-vs-leave-vs-query", n_cells: 5, setup: vec![Op::MonitorScope("s", m)], threads: vec![vec![Op::Join("s", "g", vec![a, a, b])], vec![Op::Leave("s", "g", vec![a])], vec![Op::Members("s", "g"), Op::Members("s", "g")]], strangers: vec![n] },
+            Sc { name: "scoped-join-dups-vs-leave-vs-query", n_cells: 5, setup: vec![Op::MonitorScope("s", m)], threads: vec![vec![Op::Join("s", "g", vec![a, a, b])], vec![Op::Leave("s", "g", vec![a])], vec![Op::Members("s", "g"), Op::Members("s", "g")]], strangers: vec![n], after: vec![] },
             Some(3),
             8,
         ),
         (
-            Sc { name: "two-groups-vs-exit", n_cells: 5, setup: vec![Op::Monitor("g", m), Op::MonitorScope(DS, mw)], threads: vec![vec![Op::Join(DS, "g", vec![a])], vec![Op::Join(DS, "h", vec![a, b])], vec![Op::Exit(a)]], strangers: vec![n] },
+            Sc { name: "two-groups-vs-exit", n_cells: 5, setup: vec![Op::Monitor("g", m), Op::MonitorScope(DS, mw)], threads: vec![vec![Op::Join(DS, "g", vec![a])], vec![Op::Join(DS, "h", vec![a, b])], vec![Op::Exit(a)]], strangers: vec![n], after: vec![] },
             Some(3),
             8,
         ),
         (
-            Sc { name: "monitor-exits", n_cells: 5, setup: vec![Op::Join(DS, "g", vec![b])], threads: vec![vec![Op::Monitor("g", a), Op::MonitorScope("s", a)], vec![Op::Exit(a)], vec![Op::Leave(DS, "g", vec![b]), Op::Join("s", "g", vec![b])]], strangers: vec![n, m] },
+            Sc { name: "monitor-exits", n_cells: 5, setup: vec![Op::Join(DS, "g", vec![b])], threads: vec![vec![Op::Monitor("g", a), Op::MonitorScope("s", a)], vec![Op::Exit(a)], vec![Op::Leave(DS, "g", vec![b]), Op::Join("s", "g", vec![b])]], strangers: vec![n, m], after: vec![] },
             Some(3),
             8,
         ),
         (
-            Sc { name: "leave-vs-join-vs-listing", n_cells: 5, setup: vec![Op::Join(DS, "g", vec![a]), Op::Monitor("g", m)], threads: vec![vec![Op::Leave(DS, "g", vec![a])], vec![Op::Join(DS, "g", vec![a])], vec![Op::Listing, Op::Members(DS, "g")]], strangers: vec![n] },
+            Sc { name: "leave-vs-join-vs-listing", n_cells: 5, setup: vec![Op::Join(DS, "g", vec![a]), Op::Monitor("g", m)], threads: vec![vec![Op::Leave(DS, "g", vec![a])], vec![Op::Join(DS, "g", vec![a])], vec![Op::Listing, Op::Members(DS, "g")]], strangers: vec![n], after: vec![] },
             Some(3),
             8,
         ),
+        // a racing operation empties the actor's reverse-index entry while it is being joined elsewhere; the
+        // actor exits afterwards and must be gone from the group it joined
         (
-            Sc { name: "demonitor-vs-join-vs-exit", n_cells: 5, setup: vec![Op::Monitor("g", m), Op::MonitorScope(DS, mw)], threads: vec![vec![Op::Demonitor("g", m), Op::DemonitorScope(DS, mw)], vec![Op::Join(DS, "g", vec![a, b])], vec![Op::Exit(b)]], strangers: vec![n] },
+            Sc { name: "demonitor-vs-join-then-exit", n_cells: 5, setup: vec![Op::Monitor("h", a)], threads: vec![vec![Op::Demonitor("h", a)], vec![Op::Join(DS, "g", vec![a])]], strangers: vec![n, b], after: vec![Op::Exit(a)] },
+            None,
+            8,
+        ),
+        (
+            Sc { name: "demonitor_scope-vs-join-then-exit", n_cells: 5, setup: vec![Op::MonitorScope("s", a), Op::Monitor("g", m)], threads: vec![vec![Op::DemonitorScope("s", a)], vec![Op::Join("s", "g", vec![a, b])]], strangers: vec![n], after: vec![Op::Exit(a), Op::Members("s", "g")] },
+            None,
+            8,
+        ),
+        (
+            Sc { name: "leave-vs-join-other-group-then-exit", n_cells: 5, setup: vec![Op::Join(DS, "h", vec![a]), Op::Monitor("g", m)], threads: vec![vec![Op::Leave(DS, "h", vec![a])], vec![Op::Join(DS, "g", vec![a])]], strangers: vec![n, b], after: vec![Op::Exit(a), Op::Listing] },
+            None,
+            8,
+        ),
+        (
+            Sc { name: "demonitor-vs-join-vs-exit", n_cells: 5, setup: vec![Op::Monitor("g", m), Op::MonitorScope(DS, mw)], threads: vec![vec![Op::Demonitor("g", m), Op::DemonitorScope(DS, mw)], vec![Op::Join(DS, "g", vec![a, b])], vec![Op::Exit(b)]], strangers: vec![n], after: vec![] },
             Some(3),
             8,
         ),
